@@ -26,7 +26,18 @@ THE PROPERTY (a behavioural property of the library that must hold for every inp
   why the tests cannot settle it: {rec['why_tests_cant']}
   code it is anchored in: {json.dumps(rec['anchors'])}
 """
-if mode == 'hard3':
+if mode == 'hunt':
+    print(f"""You are helping to evaluate a Python library by looking for GENUINE DEFECTS: inputs, configurations or call histories for which a stated property of the library is false on the code as it is.
+
+{common}
+YOUR TASK: find as many DIFFERENT genuine violations of the property above as you can in the UNMODIFIED source under {wt}/src/emsarray (do not change the library). Think about the corners of the quantifier: unusual but legitimate inputs (one-based or transposed storage, masked / missing entries, coordinates held as plain variables instead of xarray coordinates, 1xN and Nx1 shapes, single layers or single time steps, integer variables, descending axes, several grid kinds, names that differ from dimension names, attributes spelt in another case, datasets produced by the library itself and fed back in), unusual argument forms (generators, names versus arrays, keyword versus positional), repeated calls on the same object, and disagreement between two functions that should agree. Read the code the property is anchored in and the helpers it calls, form hypotheses, and TEST them by running small scripts. A defect counts when the library returns a wrong result silently, or refuses / crashes on an input the property covers. Behaviour of third party libraries in this environment (projection accuracy of cartopy, pyshp field names, missing udunits) does not count.
+For every defect you confirm write a demonstration: a standalone Python program that builds its input in memory or in a temporary directory, checks the property, prints what went wrong and exits with status 1 when the property is violated and 0 when it holds. Locate test data and helper modules relative to the current working directory (always the worktree root), never relative to __file__.
+
+DELIVERABLES - create the directory {wt}/seed_out and put there, numbered 1, 2, 3 ...:
+  {wt}/seed_out/defect_N.py     run as: cd {wt} && PYTHONPATH={wt}/src:{wt} /venv/bin/python seed_out/defect_N.py   (exits 1 on the unmodified tree)
+  {wt}/seed_out/defect_N.md     5-10 lines: the input class, what happens, which line(s) of the library cause it, and the smallest change you think would repair it
+Quality matters more than quantity: only deliver defects you have reproduced, and say clearly when something is merely suspicious. Finish with a short report listing the defects, most serious first. If you find none after a thorough search, say so and describe what you tried.""")
+elif mode == 'hard3':
     print(f"""You are helping to evaluate a verification tool by writing realistic, hard-to-notice defects ("seeded changes").
 
 {common}
